@@ -527,6 +527,7 @@ func c06(p *core.Program, r *core.Report) {
 		return false, ""
 	})
 
+	sentinelRule(p, r, "index-sentinel-checked", []string{wktRel}, 1)
 	errflowRule(p, r, ruleText(r, "errors-recorded", "every error-returning call in package wkt propagates its error or records it with setError/setLexError/setParseError (the parser then returns 1)", 40), fns, func(c ssa.CallInstruction) bool {
 		if f := c.Common().StaticCallee(); f != nil {
 			switch f.Name() {
